@@ -242,10 +242,31 @@ package grpcgcp
 //@ func newErrPicker
 //@   ensures result is *errPicker && result.(*errPicker).err == err
 //@
+//@ option seq=string
+// Reference traversal of C11 as spec functions over the abstract reflect tree (definitional axioms, DESIGN 7 C11):
+// kOK(v, path, s): following path[s:] from v succeeds; kSeq(v, path, s): the keys found, in field order;
+// seqUpTo(f, path, s, i): the keys of the first i elements of the repeated field f.
+//@ uf kOK(reflect.Value, []string, int) bool
+//@ uf kSeq(reflect.Value, []string, int) seq
+//@ uf seqUpTo(reflect.Value, []string, int, int) seq
+//@ uf kD(reflect.Value) reflect.Value
+//@ uf kF(reflect.Value, []string, int) reflect.Value
+//@ rawaxiom uf_kD :: (forall ((v U_reflect.Value)) (! (= (uf_kD v) (ite (or (= (uf_rkind v) 22) (= (uf_rkind v) 20)) (uf_relem v) v)) :pattern ((uf_kD v))))
+//@ rawaxiom uf_kF :: (forall ((v U_reflect.Value) (p (Array Int Str)) (o Int) (n Int) (s Int)) (! (= (uf_kF v p o n s) (uf_rfield (uf_kD v) (uf_strtitle (select p (+ o s))))) :pattern ((uf_kF v p o n s))))
+//@ rawaxiom uf_kOK uf_kSeq :: (forall ((v U_reflect.Value) (p (Array Int Str)) (o Int) (n Int) (s Int)) (! (=> (= s n) (and (= (uf_kOK v p o n s) (= (uf_rkind (uf_kD v)) 24)) (=> (uf_kOK v p o n s) (= (uf_kSeq v p o n s) (seq_single (uf_rstr (uf_kD v))))))) :pattern ((uf_kOK v p o n s)) :pattern ((uf_kSeq v p o n s))))
+//@ rawaxiom uf_kOK uf_kSeq :: (forall ((v U_reflect.Value) (p (Array Int Str)) (o Int) (n Int) (s Int)) (! (=> (and (not (= s n)) (not (= (uf_rkind (uf_kD v)) 25))) (not (uf_kOK v p o n s))) :pattern ((uf_kOK v p o n s))))
+//@ rawaxiom uf_kOK uf_kSeq :: (forall ((v U_reflect.Value) (p (Array Int Str)) (o Int) (n Int) (s Int)) (! (=> (and (not (= s n)) (= (uf_rkind (uf_kD v)) 25) (not (= (uf_rkind (uf_kF v p o n s)) 23))) (and (= (uf_kOK v p o n s) (uf_kOK (uf_kF v p o n s) p o n (+ s 1))) (= (uf_kSeq v p o n s) (uf_kSeq (uf_kF v p o n s) p o n (+ s 1))))) :pattern ((uf_kOK v p o n s)) :pattern ((uf_kSeq v p o n s))))
+//@ rawaxiom uf_kOK uf_kSeq :: (forall ((v U_reflect.Value) (p (Array Int Str)) (o Int) (n Int) (s Int)) (! (=> (and (not (= s n)) (= (uf_rkind (uf_kD v)) 25) (= (uf_rkind (uf_kF v p o n s)) 23)) (and (= (uf_kOK v p o n s) (forall ((j Int)) (! (=> (and (<= 0 j) (< j (uf_rlen (uf_kF v p o n s)))) (uf_kOK (uf_rindex (uf_kF v p o n s) j) p o n (+ s 1))) :pattern ((uf_rindex (uf_kF v p o n s) j))))) (= (uf_kSeq v p o n s) (uf_seqUpTo (uf_kF v p o n s) p o n (+ s 1) (uf_rlen (uf_kF v p o n s)))))) :pattern ((uf_kOK v p o n s)) :pattern ((uf_kSeq v p o n s))))
+//@ rawaxiom uf_seqUpTo :: (forall ((f U_reflect.Value) (p (Array Int Str)) (o Int) (n Int) (s Int)) (! (= (uf_seqUpTo f p o n s 0) seq_empty) :pattern ((uf_seqUpTo f p o n s 0))))
+//@ rawaxiom uf_seqUpTo :: (forall ((f U_reflect.Value) (p (Array Int Str)) (o Int) (n Int) (s Int) (i Int)) (! (=> (<= 0 i) (= (uf_seqUpTo f p o n s (+ i 1)) (seq_cat (uf_seqUpTo f p o n s i) (uf_kSeq (uf_rindex f i) p o n s)))) :pattern ((uf_seqUpTo f p o n s (+ i 1)))))
 //@ func keysFromMessage
 //@   requires 0 <= start && start <= len(path)
+//@   ensures [C11.keys-ok] ($ret1 == nil) == kOK(val, path, start)
+//@   ensures [C11.keys-eq] $ret1 == nil ==> seq($ret0) == kSeq(val, path, start)
 //@   decreases len(path) - start
-//@   loop 1 invariant 0 <= i
+//@   loop 1 invariant 0 <= i && i <= rlen(valField)
+//@   loop 1 invariant forall j int :: {rindex(valField, j)} 0 <= j && j < i ==> kOK(rindex(valField, j), path, start + 1)
+//@   loop 1 invariant seq(keys) == seqUpTo(valField, path, start + 1, i)
 //@   loop 1 decreases rlen(valField) - i
 //@
 //@ func context.Context.Value(key) (v)
